@@ -343,6 +343,14 @@ def grid(foreign):
             local = b"l" * (898 + dl - len(b"@[127.0.0.1]"))
             out.append({"d": "smtpd", "env": {"RELAYCLIENT": None}, "ctl": ctl, "db": None, "qq": {"mode": "qq", "exit": 0},
                         "cmds": [mail(), rcpt(local + b"@[127.0.0.1]"), rcpt(ok1), D()], "cut": None, "grid": "limit_vs_localiphost"})
+    # every letter of the alphabet in a list entry meets its other case in the address (rcpthosts, morercpthosts, badmailfrom)
+    pan = b"quick-brown-fox.jumps-over.lazy-dog.vwxyz.example"
+    for key, addr in ((pan, pan.upper()), (pan.upper(), pan), (pan.title(), pan.swapcase())):
+        for ctl in (dict(ctl0, rcpthosts=[J(key)], morercpthosts=None), dict(ctl0, rcpthosts=[J(b"." + key)], morercpthosts=None),
+                    dict(ctl0, rcpthosts=[], morercpthosts=[J(key), J(b"." + key)]), dict(ctl0, badmailfrom=[J(b"Jack.Q.Public-vwxyz@" + key), J(b"@sub." + key)])):
+            out.append({"d": "smtpd", "env": {"RELAYCLIENT": None}, "ctl": ctl, "db": None, "qq": {"mode": "qq", "exit": 0}, "grid": "alphabet_case",
+                        "cmds": [mail(b"jACK.q.pUBLIC-VWXYZ@" + addr), rcpt(b"u@" + addr), rcpt(ok1), D(), mail(b"x@sub." + addr), rcpt(b"u@sub." + addr), rcpt(ok1), D(),
+                                 mail(), rcpt(b"u@" + addr), rcpt(b"u@x." + addr), D()], "cut": None})
     # control files whose last line has no newline (the last entries of ctl0 decide "iplit", "bmf" and "case_and_more")
     for name in ("iplit", "bmf", "case_and_more", "mixed_rcpts"):
         for nonl in (["rcpthosts"], ["badmailfrom"], ["morercpthosts"], ["me", "rcpthosts", "badmailfrom", "morercpthosts"]):
